@@ -433,6 +433,14 @@ func cmdCheck(args []string) int {
 		if tier == 1 {
 			budget = h.ThoroughS
 		}
+		if budget == 0 {
+			// a safety net, far above what any harness needs on the unchanged tree: a change to the code under
+			// test that makes the exploration explode ends the run INCONCLUSIVE instead of running for ever
+			budget = 900
+			if tier == 1 {
+				budget = 3600
+			}
+		}
 		cfg := gx.Config{Prog: prog, Entry: f, Tier: tier, SolverBin: *solver, Workers: *workers,
 			ModulePath: modulePath, MaxPaths: h.MaxPaths, Known: activeKnown, StrMax: h.StrMax, MaxSteps: h.MaxSteps, OrderInsensitive: orderLemmas()}
 		if budget > 0 {
